@@ -175,7 +175,7 @@ pub fn write_replay(property: &str, monitors: &str, w: &Witness) -> String {
         "levels": w.levels,
         "profile": {
             "name": w.profile.name, "tick": w.profile.tick, "start_time": w.profile.start_time,
-            "start_trading": w.profile.start_trading,
+            "start_trading": w.profile.start_trading, "trader_base": w.profile.trader_base,
         },
         "steps": steps_to_json(&w.steps),
         "steps_readable": steps_pretty(&w.steps),
@@ -394,5 +394,122 @@ impl Outcome {
         } else {
             0
         }
+    }
+}
+
+
+// ---- replay of a recorded artefact -----------------------------------------------------------
+
+fn monitors_from_debug(txt: &str) -> crate::seqx::Monitors {
+    let on = |k: &str| txt == "all" || txt.contains(&format!("{}: true", k));
+    crate::seqx::Monitors {
+        reference: on("reference"),
+        drain: on("drain"),
+        views: on("views"),
+        ledger: on("ledger"),
+        life: on("life"),
+        grid: on("grid"),
+        notrade: on("notrade"),
+        reload_equal: on("reload_equal"),
+        reload_diff: on("reload_diff"),
+    }
+}
+
+/// `bverif replay <file>`: exit 1 + VIOLATION line if the recorded violation reproduces on the
+/// current tree, exit 0 if it does not, exit 2 if the artefact cannot be read.
+/// E1 artefacts (operation lists) are re-executed step by step on a fresh real book under the
+/// recorded monitors, without the explorer. Artefacts of the other engines name a scenario of
+/// their property's enumeration: the quick enumeration of that property is re-run in a child
+/// process (evidence and replays redirected to a scratch directory) and its report is searched
+/// for the recorded signature.
+pub fn replay_file(path: &str) -> i32 {
+    let txt = match std::fs::read_to_string(path) {
+        Ok(t) => t,
+        Err(e) => {
+            eprintln!("MACHINERY-ERROR: cannot read {}: {}", path, e);
+            return 2;
+        }
+    };
+    let v: Value = match serde_json::from_str(&txt) {
+        Ok(v) => v,
+        Err(e) => {
+            eprintln!("MACHINERY-ERROR: {} is not JSON: {}", path, e);
+            return 2;
+        }
+    };
+    let prop = v.get("property").and_then(|x| x.as_str()).unwrap_or("C00").to_string();
+    let sig = v.get("signature").and_then(|x| x.as_str()).unwrap_or("").to_string();
+    let engine = v.get("engine").and_then(|x| x.as_str()).or_else(|| v.get("replay").and_then(|r| r.get("engine")).and_then(|x| x.as_str())).unwrap_or("");
+    if engine == "seqx" {
+        let pr = v.get("profile").cloned().unwrap_or(json!({}));
+        let mut p = Profile::core(pr.get("name").and_then(|x| x.as_str()).unwrap_or("replay"), pr.get("tick").and_then(|x| x.as_u64()).unwrap_or(1) as u32, 10);
+        p.start_time = pr.get("start_time").and_then(|x| x.as_u64()).unwrap_or(0);
+        p.start_trading = pr.get("start_trading").and_then(|x| x.as_bool()).unwrap_or(true);
+        p.trader_base = pr.get("trader_base").and_then(|x| x.as_u64()).unwrap_or(100) as u32;
+        let steps = match v.get("steps").and_then(steps_from_json) {
+            Some(s) => s,
+            None => {
+                eprintln!("MACHINERY-ERROR: {} holds no readable operation list", path);
+                return 2;
+            }
+        };
+        let levels = v.get("levels").and_then(|x| x.as_u64()).unwrap_or(3) as usize;
+        let monitors = monitors_from_debug(v.get("monitors").and_then(|x| x.as_str()).unwrap_or("all"));
+        let cfg = RunCfg { label: "replay".into(), profile: p, depth: 0, monitors, base: steps.clone(), deadline: None };
+        let fails = crate::bookprops::replay_levels(levels, &cfg);
+        println!("replay of {} ({} operations, LEVELS={}, recorded signature {}):", path, steps.len(), levels, sig);
+        for l in steps_pretty(&steps) {
+            println!("    {}", l);
+        }
+        if fails.is_empty() {
+            println!("replay: every step satisfies the recorded monitors on the current tree (violation does not reproduce)");
+            return 0;
+        }
+        for (i, f) in &fails {
+            println!("  [{}] {} at operation {}: {}", prop, f.sig(), i, f.detail);
+        }
+        println!("VIOLATION property={} replay={}", prop, path);
+        return 1;
+    }
+    // other engines: re-run the property's quick enumeration and look for the signature
+    let exe = match std::env::current_exe() {
+        Ok(e) => e,
+        Err(e) => {
+            eprintln!("MACHINERY-ERROR: {}", e);
+            return 2;
+        }
+    };
+    let scratch = std::env::temp_dir().join(format!("bverif-replay-{}", std::process::id()));
+    let _ = std::fs::create_dir_all(&scratch);
+    let out = std::process::Command::new(exe)
+        .arg(&prop)
+        .arg("quick")
+        .env("VERIF_EVIDENCE_DIR", scratch.join("ev"))
+        .env("VERIF_REPLAY_DIR", scratch.join("rp"))
+        .output();
+    let _ = std::fs::create_dir_all(scratch.join("ev"));
+    let res = match out {
+        Ok(o) => o,
+        Err(e) => {
+            eprintln!("MACHINERY-ERROR: cannot re-run {}: {}", prop, e);
+            return 2;
+        }
+    };
+    let text = format!("{}{}", String::from_utf8_lossy(&res.stdout), String::from_utf8_lossy(&res.stderr));
+    let _ = std::fs::remove_dir_all(&scratch);
+    println!("replay of {} (engine {}): re-ran the quick enumeration of {} and searched its report for signature {}", path, engine, prop, sig);
+    let hit = text.lines().any(|l| l.contains(&format!("[{}] {}", prop, sig)));
+    if hit {
+        for l in text.lines().filter(|l| l.contains(&sig)).take(3) {
+            println!("{}", l);
+        }
+        println!("VIOLATION property={} replay={}", prop, path);
+        1
+    } else if res.status.code() == Some(2) {
+        eprintln!("MACHINERY-ERROR: the re-run ended with a machinery error");
+        2
+    } else {
+        println!("replay: the recorded signature does not occur on the current tree");
+        0
     }
 }
